@@ -563,3 +563,50 @@ func withND(v *spec.Version, a spec.Assignment, from, to int) spec.Assignment {
 	}
 	return b
 }
+
+// Subsequences enumerates structurally damaged vectors completely: every
+// order-preserving subsequence of the v2.0 metric list (2^14, two value
+// variants), and for v3.x / v4.0 every subset of the base metrics combined with
+// a few optional tails. Only a handful of them are well-formed; the rest miss
+// one or several metrics at every combination of positions.
+func Subsequences() []string {
+	var out []string
+	vals := func(m spec.Metric, variant int) string {
+		if variant == 0 {
+			return m.Vals[0]
+		}
+		return m.Vals[len(m.Vals)-1]
+	}
+	v := spec.V2
+	for mask := 0; mask < 1<<14; mask++ {
+		for variant := 0; variant < 2; variant++ {
+			var parts []string
+			for i, m := range v.Metrics {
+				if mask&(1<<i) != 0 {
+					parts = append(parts, m.Abv+":"+vals(m, variant))
+				}
+			}
+			out = append(out, strings.Join(parts, "/"))
+		}
+	}
+	for _, v := range []*spec.Version{spec.V30, spec.V31, spec.V4} {
+		base := v.Base()
+		opt := v.Optional()
+		tails := [][]spec.Metric{nil, opt, opt[:1], opt[len(opt)-1:]}
+		for mask := 0; mask < 1<<len(base); mask++ {
+			for _, tail := range tails {
+				var parts []string
+				for i, m := range base {
+					if mask&(1<<i) != 0 {
+						parts = append(parts, m.Abv+":"+vals(m, 1))
+					}
+				}
+				for _, m := range tail {
+					parts = append(parts, m.Abv+":"+vals(m, 1))
+				}
+				out = append(out, v.Header+strings.Join(parts, "/"))
+			}
+		}
+	}
+	return out
+}
